@@ -75,6 +75,10 @@ def transposed_shape(case, seed):
     return other
 
 
+def j_debug(conf):
+    return bool(conf.get("debug_before"))
+
+
 def delays_for(kind, K, rounds, rng):
     plan = {}
     for r in range(rounds):
@@ -166,6 +170,9 @@ def run_shard(spec, res):
             kind = kinds[(j + (3 if spec["role"] == "B" else 0)) % len(kinds)]
             confs.append(dict(name="np%d-%s-%s" % (nproc, "mp" if mp else "sp", kind), nproc=nproc, mp=mp,
                               task_plan=delays_for(kind, K, 25, rng), preceding=int(rng.integers(1, 4)) if spec["role"] == "B" and j % 2 == 0 else 0))
+            if spec["role"] == "B" and j == 2:
+                confs[-1]["debug_before"] = True
+                confs[-1]["preceding"] = max(1, confs[-1].get("preceding", 0))
             if spec["role"] == "B" and j == 0 and (spec.get("big") or i == 0):
                 confs[-1]["preceding"] = 2
                 confs[-1]["big_before"] = True
@@ -184,7 +191,24 @@ def run_shard(spec, res):
                              beta=dict(form="float", value=5.0), lam=dict(form="float", value=0.5), m=2, limit=1, biased=True, eps=0.0,
                              nproc=1, mp=False, rng_seed=1, init=dict(kind="blocks"))
                 res.count("preceding_calls_with_large_NW")
-            e2e.run_case(other)
+            if p == 0 and conf.get("preceding", 0) >= 1 and j_debug(conf):
+                other = dict(case)                  # same shapes as the target call (same keys in every memo table)
+                other["limit"] = 2
+                other["nproc"], other["mp"], other["task_plan"] = 1, False, {}
+                # an earlier call made while DEBUG logging was switched on for the library (a user chasing a problem)
+                import logging
+                lg = logging.getLogger("fast_ticc")
+                old_level, h = lg.level, logging.NullHandler()
+                lg.addHandler(h)
+                lg.setLevel(logging.DEBUG)
+                try:
+                    e2e.run_case(other)
+                finally:
+                    lg.setLevel(old_level)
+                    lg.removeHandler(h)
+                res.count("preceding_calls_under_debug_logging")
+            else:
+                e2e.run_case(other)
             res.count("preceding_calls")
         d, perms, run = run_config(case, conf, res)
         res.evaluations += 1
@@ -252,6 +276,8 @@ def finalize(merged, tier):
         out["inconclusive"].append("fewer than 3 compared configurations drew points for a repopulation (global-generator dependence unobserved)")
     if merged["counters"].get("preceding_calls_same_NW_other_split", 0) < 3:
         out["inconclusive"].append("fewer than 3 configurations were preceded by a call with the same N*W but another (N,W) split")
+    if merged["counters"].get("preceding_calls_under_debug_logging", 0) < 3:
+        out["inconclusive"].append("fewer than 3 configurations were preceded by a call made under DEBUG logging")
     if merged["counters"].get("preceding_calls_with_large_NW", 0) < 1:
         out["inconclusive"].append("no compared configuration was preceded by a call with a large matrix size")
     if merged["counters"].get("entry_point_repeat_comparisons", 0) < (30 if tier == "quick" else 300):
